@@ -94,8 +94,25 @@ def sameThreadOrder (p : Params) (tr : List Obs) : List Viol :=
         | _, _ => vs
       else vs) vs) []
 
+/-- "the set of started jobs is always a prefix of that order", at a moment of rest (`rest`: nothing but the observing
+    client can run; programs with a slowly acknowledging backend): a goroutine that was handed a job is runnable until it
+    starts it, so at rest every item handed out has started. An item that has not, while one handed out after it has, was
+    overtaken and stays overtaken for as long as the rest lasts: the started set is not a prefix. (Without a later started
+    item it is C03's at-rest clause that reports the waiting job.) -/
+def restPrefix (p : Params) (tr : List Obs) : List Viol :=
+  (foldCheck ({} : C03.St) (fun s b o b' =>
+    let (s', _) := C03.onEvent p s b o b'
+    match o with
+    | .rest =>
+      if !p.ackHold then (s', []) else
+      let order := s.delivered.reverse
+      let bad := order.zipIdx.filter (fun (k, i) => (b.job k).entered == 0 && (order.drop (i + 1)).any (fun k' => (b.job k').entered > 0))
+      (s', if bad.isEmpty then [] else
+        [s!"at rest, items {bad.map (·.1)} of the hand-out order {order} have not started although items handed out after them have: the started jobs are not a prefix of the hand-out order"])
+    | _ => (s', [])) tr).2.2
+
 def check (p : Params) (tr : List Obs) (e : EndInfo) : List Viol :=
-  checkOrdered p tr e ++ sameThreadOrder p tr
+  checkOrdered p tr e ++ sameThreadOrder p tr ++ restPrefix p tr
 
 /-- the jobs of the predicted order that never started -/
 def neverStarted (p : Params) (tr : List Obs) : List Nat × List Nat :=
